@@ -326,6 +326,10 @@ func (session *HermesSession) Run(workingDir string, args []string, logID string
 
 			g.TAG.Add(g.DT.Index)
 			if g.TAG.Index+1 > g.JTAG {
+				// the weather of a year may end early only if the simulation ends before it does
+				if g.JTAG < daysInYear(1900+g.J) {
+					return fmt.Errorf("weather data of year %d ends on day %d", 1900+g.J, g.JTAG)
+				}
 				g.J++
 				JZ = JZ + 1
 				//MONAT 1 TAG 1
